@@ -180,6 +180,53 @@ func c16failLines(r *rand.Rand, f *c16file, kind, ind string) int {
 	}
 }
 
+// c16callLines adds the statement "<target> := <call>" to f, directly or inside a try statement (the call made from
+// the try body, from the catch block or from the finally block, where the frame's error handler is already used up),
+// and returns the line of the call.
+func c16callLines(r *rand.Rand, f *c16file, ind, target, call string) (int, string) {
+	switch r.Intn(6) {
+	case 0:
+		f.add(ind + target + " := undefined")
+		f.add(ind + "try {")
+		f.add(ind + "  pad := 1")
+		f.add(ind + "} finally {")
+		ln := f.add(ind + "  " + target + " = " + call)
+		f.add(ind + "}")
+		return ln, "call-in-finally"
+	case 1:
+		f.add(ind + target + " := undefined")
+		f.add(ind + "try {")
+		f.add(ind + "  throw \"pre\"")
+		f.add(ind + "} catch {")
+		ln := f.add(ind + "  " + target + " = " + call)
+		f.add(ind + "}")
+		return ln, "call-in-catch"
+	case 2:
+		f.add(ind + target + " := undefined")
+		f.add(ind + "try {")
+		ln := f.add(ind + "  " + target + " = " + call)
+		f.add(ind + "} finally {")
+		f.add(ind + "  pad := 2")
+		f.add(ind + "}")
+		return ln, "call-in-try"
+	case 3:
+		f.add(ind + target + " := undefined")
+		f.add(ind + "try {")
+		f.add(ind + "  throw \"pre\"")
+		f.add(ind + "} catch {")
+		f.add(ind + "  pad := 3")
+		f.add(ind + "} finally {")
+		f.add(ind + "  try {")
+		f.add(ind + "    pad := 4")
+		f.add(ind + "  } finally {")
+		ln := f.add(ind + "    " + target + " = " + call)
+		f.add(ind + "  }")
+		f.add(ind + "}")
+		return ln, "call-in-nested-finally"
+	}
+	return f.add(ind + target + " := " + call), "call-plain"
+}
+
 // c16build builds one chain.
 func c16build(r *rand.Rand, depth int, fail string) c16chain {
 	ch := c16chain{Depth: depth, Fail: fail, Modules: map[string]string{}}
@@ -246,7 +293,9 @@ func c16build(r *rand.Rand, depth int, fail string) c16chain {
 			for _, pl := range nextPrelude {
 				body.add(ind + pl)
 			}
-			ln = body.add(ind + "r := " + nextCall)
+			var how string
+			ln, how = c16callLines(r, body, ind, "r", nextCall)
+			ch.Callees = append(ch.Callees, how)
 			body.add(ind + "return r")
 		}
 		expect = append(expect, fmt.Sprintf("%s:%d", fi.file, ln))
@@ -292,7 +341,9 @@ func c16build(r *rand.Rand, depth int, fail string) c16chain {
 		for _, pl := range nextPrelude {
 			main.add(pl)
 		}
-		ln = main.add("res := " + nextCall)
+		var how string
+		ln, how = c16callLines(r, main, "", "res", nextCall)
+		ch.Callees = append(ch.Callees, how)
 		main.add("return res")
 	}
 	expect = append(expect, fmt.Sprintf("(main):%d", ln))
